@@ -908,9 +908,10 @@ func main() {
 		scenarioOptions()
 		scenarioDefaults()
 		const ms = time.Millisecond
-		scenarioDeadlines(40*ms, 250*ms, 150*ms, 120*ms, 100*ms)
-		scenarioDeadlines(40*ms, 250*ms, 150*ms, 400*ms, 0)
-		scenarioDeadlines(40*ms, 250*ms, 150*ms, 0, 260*ms)
+		// held answers: hundreds of ms between "held" and the deadline in either direction (shared, loaded machine)
+		scenarioDeadlines(40*ms, 600*ms, 400*ms, 80*ms, 80*ms)
+		scenarioDeadlines(40*ms, 600*ms, 400*ms, 850*ms, 0)
+		scenarioDeadlines(40*ms, 600*ms, 400*ms, 0, 650*ms)
 		scenarioDeadlines(40*ms, 3000*ms, 3000*ms, 0, 0) // the silent heartbeat against long session / rebalance time-outs
 	}
 	if only == "d8" {
